@@ -498,27 +498,28 @@ func runL5Conc(r *rng.R, threads, perThread int) (obs *l5ConcObs) {
 	// prepared at the same moment by as many goroutines: every one gets its own place in
 	// the cache (C11: "for all histories ... over several Statements")
 	stmts := make([]*sqlair.Statement, nS)
-	extra := make([]*sqlair.Statement, 16)
+	extra := make([]*sqlair.Statement, 16*16)
 	{
 		startP := make(chan struct{})
 		var wgp sync.WaitGroup
-		for i := 0; i < nS+len(extra); i++ {
+		for g := 0; g < 16; g++ {
 			wgp.Add(1)
-			go func(i int) {
+			go func(g int) {
 				defer wgp.Done()
 				<-startP
-				s, _ := sqlair.Prepare(l5SQL, Row{}, zoo.Ints{}, zoo.Strs{})
-				if i < nS {
-					stmts[i] = s
-				} else {
-					extra[i-nS] = s
+				for k := 0; k < 16; k++ {
+					s, _ := sqlair.Prepare(l5SQL, Row{}, zoo.Ints{}, zoo.Strs{})
+					extra[g*16+k] = s
+					if i := g*16 + k; i < nS {
+						stmts[i] = s
+					}
 				}
-			}(i)
+			}(g)
 		}
 		close(startP)
 		wgp.Wait()
 		seenID := map[uint64]bool{}
-		for _, s := range append(append([]*sqlair.Statement{}, stmts...), extra...) {
+		for _, s := range extra { // (the run's own Statements are the first of them)
 			id := hookStatementID(s)
 			if seenID[id] {
 				obs.DupIDs++
